@@ -14,8 +14,13 @@ package main
 //   sc=handover sched=<reply-no-cancel|cancel-after-reply|deadline-after-reply|cancel-before-reply>
 //        reuse transport: the caller's context ends around the hand-over of the reply (the worker is parked in its
 //        epilogue by contention on the transport mutex while the caller receives the reply and its context ends)
-//   sc=emptyresp sched=<no-rd|opcode|qr-set|qdcount2|qdcount0>
-//        not-implemented queries through every listener of the real router (header-only replies), then ordinary queries
+//   sc=emptyresp sched=<no-rd|opcode|qr-set|qdcount2|qdcount0|refused|reject|servfail>
+//        header-only replies of the real router through every listener (not-implemented queries; no rule matches; a
+//        rejecting rule; the upstream exchange fails), each followed by ordinary queries
+//
+//   sc=prefetch sched=<hit-last-quarter|hit-fresh>
+//        a cache hit in the last quarter of the entry's life (entry placed with chosen instants) through every listener:
+//        the prefetch goroutine outlives the handler; every query the upstream sees must be a question a client asked
 //
 // The harness plays the OWNER of every message it is given: such a message must never be reported released by the
 // hook while the harness holds it ("returned-released"), must carry the reply to the harness's own query for as long as
@@ -32,6 +37,7 @@ import (
 	"io"
 	"math/rand"
 	"net"
+	"os"
 	"sync"
 	"syscall"
 	"time"
@@ -238,7 +244,10 @@ func c20PlainName(rng *rand.Rand) []byte {
 
 // one ordinary A query through listener l: "ok" when the response is the keyed answer to exactly this question
 func c20GoodQuery(env *hx.RouterEnv, l string, rng *rand.Rand) string {
-	name := c20PlainName(rng)
+	return c20KeyedQuery(env, l, c20PlainName(rng), rng)
+}
+
+func c20KeyedQuery(env *hx.RouterEnv, l string, name []byte, rng *rand.Rand) string {
 	id := uint16(rng.Intn(65536))
 	q := hx.BuildQuery(id, name, 1, 1, true)
 	resps, status := env.Query(l, q, "-", 3*time.Second, 0)
@@ -278,8 +287,11 @@ func c20GoodQuery(env *hx.RouterEnv, l string, rng *rand.Rand) string {
 }
 
 func c20RouterEnv(tls bool) (*hx.RouterEnv, error) {
+	return c20RouterEnvSpec("U=u;E=0;S=-;R=-:0:0:0", tls)
+}
+
+func c20RouterEnvSpec(spec string, tls bool) (*hx.RouterEnv, error) {
 	router.VerifQuiet()
-	spec := "U=u;E=0;S=-;R=-:0:0:0"
 	if tls {
 		spec += ";T=1"
 	}
@@ -425,8 +437,22 @@ func c20Listen(sched string, rng *rand.Rand, o *ownOutcome) error {
 	return nil
 }
 
+// zones of the emptyresp scenarios: names under "rej" are rejected by a rule (NXDOMAIN), names under "fwd" are forwarded,
+// anything else matches no rule (REFUSED)
+func c20ZoneName(rng *rand.Rand, zone string) []byte {
+	_, name := c20Query(rng, 0)
+	if len(name) > 40 {
+		name = name[:0]
+		name = append(name, 3, 'w', 'w', 'w')
+	}
+	name = append(name, byte(len(zone)))
+	return append(name, zone...)
+}
+
 func c20EmptyResp(sched string, rng *rand.Rand, o *ownOutcome) error {
-	env, err := c20RouterEnv(false)
+	rej := hx.Hex([]byte{3, 'r', 'e', 'j'})
+	fwd := hx.Hex([]byte{3, 'f', 'w', 'd'})
+	env, err := c20RouterEnvSpec("U=u;E=0;S=d."+rej+",d."+fwd+";R=0:0:3:-,1:0:0:0", false)
 	if err != nil {
 		return err
 	}
@@ -436,11 +462,41 @@ func c20EmptyResp(sched string, rng *rand.Rand, o *ownOutcome) error {
 			env.Close()
 		}
 	}()
+	good := func(l string) {
+		// an ordinary forwarded query: the keyed answer of exactly this question
+		var name []byte
+		for {
+			name = c20ZoneName(rng, "fwd")
+			if hx.KeyedClass(hx.QuestionKey(hx.BuildQuery(0, name, 1, 1, true))) != "fail" {
+				break
+			}
+		}
+		st := c20KeyedQuery(env, l, name, rng)
+		o.rets = append(o.rets, l+":"+st)
+		if st == "poison" || st == "bad-response" || st == "undecodable" {
+			o.bad = true
+		}
+	}
 	ls := []string{"udp", "tcp", "gnet", "http-post", "fasthttp-post", "http-get"}
 	for _, l := range ls {
 		for rep := 0; rep < 2; rep++ {
 			id := uint16(rng.Intn(65536))
-			q, name := c20Query(rng, id)
+			name := c20ZoneName(rng, "fwd")
+			want := dnsmsg.RCodeNotImplemented
+			switch sched {
+			case "refused": // no rule matches
+				name = c20ZoneName(rng, "other")
+				want = dnsmsg.RCodeRefused
+			case "reject": // a rule with a reject rcode
+				name = c20ZoneName(rng, "rej")
+				want = dnsmsg.RCodeNameError
+			case "servfail": // the upstream exchange fails (truncated UDP reply, then the TCP connection is closed)
+				for hx.KeyedClass(hx.QuestionKey(hx.BuildQuery(0, name, 1, 1, true))) != "fail" {
+					name = c20ZoneName(rng, "fwd")
+				}
+				want = dnsmsg.RCodeServerFailure
+			}
+			q := hx.BuildQuery(id, name, 1, 1, true)
 			switch sched {
 			case "no-rd":
 				q[2] &^= 1
@@ -449,17 +505,18 @@ func c20EmptyResp(sched string, rng *rand.Rand, o *ownOutcome) error {
 			case "qr-set":
 				q[2] |= 0x80
 			case "qdcount2":
-				q2, _ := c20Query(rng, 0)
+				q2 := hx.BuildQuery(0, c20ZoneName(rng, "fwd"), 1, 1, true)
 				q = append(q, q2[12:]...)
 				q[5] = 2
 			case "qdcount0":
 				q = q[:12]
 				q[5] = 0
+			case "refused", "reject", "servfail":
 			default:
 				return errors.New("unknown schedule " + sched)
 			}
 			resps, status := env.Query(l, q, "-", 3*time.Second, 0)
-			tok := "notimp"
+			tok := "hdronly"
 			if status != "ok" || len(resps) == 0 {
 				tok = "noresp(" + status + ")"
 			} else if hasPoison(resps[0]) {
@@ -472,26 +529,80 @@ func c20EmptyResp(sched string, rng *rand.Rand, o *ownOutcome) error {
 				if m.Header.ID != id || !m.Header.Response {
 					tok = "bad-response"
 					o.bad = true
-				} else if sched != "qdcount0" && (len(m.Questions) != 1 || !bytes.Equal(m.Questions[0].Name, name)) {
-					tok = "bad-response" // the reply must echo the FIRST question of the query, octet for octet
+				} else if sched != "qdcount0" && (len(m.Questions) != 1 || !bytes.EqualFold(m.Questions[0].Name, name)) {
+					tok = "bad-response" // the reply must echo the FIRST question of the query
 					o.bad = true
-				} else if m.Header.RCode != dnsmsg.RCodeNotImplemented {
+				} else if m.Header.RCode != want || len(m.Answers) != 0 {
 					tok = fmt.Sprintf("rcode%d", m.Header.RCode)
 				}
 				dnsmsg.ReleaseMsg(m)
 			}
 			o.rets = append(o.rets, l+":"+tok)
 		}
-		// ordinary traffic afterwards: objects released by the not-implemented path must not have two owners
+		// ordinary traffic afterwards: objects released with a header-only reply must not have two owners
 		for rep := 0; rep < 2; rep++ {
-			st := c20GoodQuery(env, l, rng)
-			o.rets = append(o.rets, l+":"+st)
-			if st == "poison" || st == "bad-response" || st == "undecodable" {
-				o.bad = true
-			}
+			good(l)
 		}
 	}
 	time.Sleep(10 * time.Millisecond)
+	env.Close()
+	closed = true
+	time.Sleep(10 * time.Millisecond)
+	return nil
+}
+
+// ---------------------------------------------------------------- sc=prefetch
+func c20Prefetch(sched string, rng *rand.Rand, o *ownOutcome) error {
+	env, err := c20RouterEnvSpec("U=u;E=0;S=-;R=-:0:0:0;C=4096", false)
+	if err != nil {
+		return err
+	}
+	closed := false
+	defer func() {
+		if !closed {
+			env.Close()
+		}
+	}()
+	ls := []string{"udp", "tcp", "gnet", "http-post", "fasthttp-post", "http-get"}
+	const reps = 2
+	var names [][]byte
+	allowed := map[string]bool{}
+	for i := 0; i < len(ls)*reps; i++ {
+		n := c20PlainName(rng)
+		names = append(names, n)
+		allowed[hx.QuestionKey(hx.BuildQuery(0, n, 1, 1, true))] = true
+	}
+	env.KeyedAllowed = allowed // complete before the first query (read by the fake upstream's goroutines)
+	stored, expire := -100*time.Second, 10*time.Second // 10 s of 110 s left: the last quarter
+	if sched == "hit-fresh" {
+		stored, expire = -time.Second, 100*time.Second
+	} else if sched != "hit-last-quarter" {
+		return errors.New("unknown schedule " + sched)
+	}
+	for i, name := range names {
+		l := ls[i%len(ls)]
+		if err := env.R.VerifC19StoreAt(hx.KeyedReply(hx.BuildQuery(0, name, 1, 1, true), 60), stored, expire); err != nil {
+			return err
+		}
+		st := c20KeyedQuery(env, l, name, rng)
+		o.rets = append(o.rets, l+":"+st)
+		if st == "poison" || st == "bad-response" || st == "undecodable" {
+			o.bad = true
+		}
+	}
+	for i := 0; i < 400 && env.R.VerifPrefetchInflight() > 0; i++ {
+		time.Sleep(5 * time.Millisecond)
+	}
+	time.Sleep(5 * time.Millisecond)
+	o.rets = append(o.rets, fmt.Sprintf("upq:%d", env.KeyedCount.Load()))
+	if n := env.KeyedForeign.Load(); n > 0 {
+		// the upstream was asked something no client asked: a question read after its release (poison: the root name with
+		// type 56283) or another request's question
+		sample, _ := env.KeyedForeignSample.Load().(string)
+		fmt.Fprintf(os.Stderr, "C20 prefetch: %d upstream queries for questions nobody asked, first: %s\n", n, sample)
+		o.rets = append(o.rets, fmt.Sprintf("up:foreign-question:%d", n))
+		o.bad = true
+	}
 	env.Close()
 	closed = true
 	time.Sleep(10 * time.Millisecond)
